@@ -193,6 +193,21 @@ add("C07", True, "fault_enumeration",
     "duplicated by the network; fatal codes are outside this property.",
     "DESIGN.md section 5, C07")
 
+add("C13", True, "exploration",
+    "model-based stateful testing: Hypothesis-generated histories on "
+    "file-like views over the simulated machine, oracle = bounded-file model "
+    "+ on-the-wire confinement monitor",
+    "Histories of seek/read/write/tell/len/slicing/close/with/free on a view "
+    "returned by sdram_alloc_as_filelike and on slices of slices are "
+    "interpreted against a fixed-length byte-array model; every read/write "
+    "command seen by the simulated machine must lie inside the issuing "
+    "view's range and a before/after comparison of all memory (guard bytes "
+    "around the allocation) shows nothing else changed; truncation warnings, "
+    "positions, slice bounds and failure after close/free are checked.",
+    "Trusted: vf/sim/scamp.py. seek(n, 2)'s sign convention and the result "
+    "of transfers at positions outside [0, len] are deliberately not pinned.",
+    "DESIGN.md section 5, C13")
+
 
 def main():
     checks = []
